@@ -75,4 +75,31 @@ example : zReplay exUnsat [[3, 1], [2, 4, 0, 4]] = some (exUnsat ++ [[(0, false)
 example : ¬ ∃ σ, Sat σ exUnsat :=
   replay_empty_unsat (ps := [[3, 1], [2, 4, 0, 4]]) (by decide)
 
+/-! ### termination -/
+
+/-- PARTIAL termination of `solve_cnf`'s main loop: on every run that learns no non-empty clause
+(`noLearnRun`: the run ends by `satisfiable` or by a conflict analysed to the empty clause — the
+path without backjumping), `#variables + 1` iterations of `while True` are enough: the model with
+that much fuel answers `sat` or `unsat`, never an error.  Each `undecided` round assigns a variable
+that was unassigned, propagation never unassigns one.
+MISSING for `solve_terminates`: (1) runs with backjumps — the measure that increases is
+`Σ_{entries} (n+1)^(n − level)` (a backjump to level `b` removes entries above `b` and the learned
+clause, all of whose literals are negated decisions of distinct levels, becomes unit and adds an
+entry at `b`); this needs the invariants "no clause is all-false under the trail restricted to a
+lower level", "one decision per level", "clauses repeat no literal"; (2) a bound for the loop of
+`analyze_conflict`, which can re-introduce a variable: the measure is `Σ_{literals} 2^(position of
+the literal's variable in the trail)`.  Neither is proved; no non-terminating input is known
+(searched for with time limits). -/
+theorem solve_terminates_partial {fuel : Nat} {cnf : CNF} {o : Oracle}
+    (hnl : noLearnRun fuel cnf o = true) (hfuel : (varsOf (cnf.map dedup)).length < fuel) :
+    ∀ e, solveCnf fuel cnf o ≠ .error e :=
+  solveCnf_noLearn_terminates hnl hfuel
+
+example : noLearnRun 4 exSat ⟨[2,1,0],[]⟩ = true := by rfl
+example : solveCnf 4 exSat ⟨[2,1,0],[]⟩ = .sat [(2, true), (1, false), (0, true)] := by rfl
+example : ∀ e, solveCnf 4 exSat ⟨[2,1,0],[]⟩ ≠ .error e :=
+  solve_terminates_partial (by rfl) (by decide)
+/-- `exUnsat` needs a backjump: not covered -/
+example : noLearnRun 100 exUnsat ⟨[0,1],[]⟩ = false := by rfl
+
 end Holpy.C15
